@@ -224,6 +224,12 @@ impl<'a> AnyCache<'a> {
     pub(crate) fn reload_untyped(self, id: SharedString, typ: Type) -> Option<Dependencies> {
         let handle = self.get_cached_untyped(&id, typ)?;
 
+        // The entry was not created by loading an asset (eg `get_or_insert`
+        // was used): it must not be reloaded.
+        if !handle.is_mutable() {
+            return None;
+        }
+
         let load_asset = || (typ.inner.load)(self, id);
         let (entry, deps) = if let Some(reloader) = self.reloader() {
             records::record(reloader, load_asset)
@@ -402,7 +408,9 @@ pub(crate) trait CacheExt: Cache {
     #[cold]
     fn add_any<T: Storable>(&self, id: &str, asset: T) -> &UntypedHandle {
         let id = SharedString::from(id);
-        let entry = CacheEntry::new(asset, id, || self._has_reloader());
+        // Values inserted this way are never reloaded, so the entry does not
+        // need to be mutable.
+        let entry = CacheEntry::new(asset, id, || false);
 
         self.insert(entry)
     }
